@@ -656,6 +656,19 @@ pub mod store {
 		Ok(())
 	}
 
+	/// One compaction round with a strategy that picks a level as soon as it holds a table, whatever
+	/// the tree's options say: lets a harness keep the background compaction task idle (high
+	/// thresholds in the options) and still compact at the points it chooses.
+	pub fn compact_round_eager(tree: &Tree) -> std::result::Result<(), String> {
+		let mut opts = (*tree.core.inner.opts).clone();
+		opts.level0_max_files = 1;
+		opts.max_bytes_for_level = 1;
+		let strategy: Arc<dyn CompactionStrategy> = Arc::new(Strategy::from_options(Arc::new(opts)));
+		tree.core.inner.compact(strategy).map_err(|e| e.to_string())?;
+		tree.core.write_stall.signal_work_done();
+		Ok(())
+	}
+
 	/// Number of tables per level.
 	pub fn level_shape(tree: &Tree) -> Vec<usize> {
 		let m = tree.core.inner.level_manifest.read().expect("manifest lock");
